@@ -311,3 +311,86 @@ func (c *Ctx) Graph() *callgraph.Graph {
 	}
 	return c.P.VTA()
 }
+
+// CombineViews folds the obligations of the same rules evaluated on the inlined view (b) into
+// the ones evaluated on the source as written (a). Both views are the same program, so an
+// obligation is discharged if either view discharges it. A violation is reported only for a
+// construct of the source as written that the inlined view does not discharge: the inlined
+// view rescues, it never adds reports (its own shape - result variables, gotos - has artefacts
+// of its own). Obligations are matched by (rule, construct).
+func (a *Ctx) CombineViews(b *Ctx) {
+	if os.Getenv("GMSL_VIEWS") != "" {
+		for _, o := range b.Obs {
+			if o.Verdict != Discharged {
+				fmt.Printf("[inlined view] %s %s: %s -- %s (%s)\n", o.Verdict, o.Rule, o.Construct, o.Detail, o.Pos)
+			}
+		}
+	}
+	for _, m := range b.minimums {
+		for i := range a.minimums {
+			if a.minimums[i].rule == m.rule && m.got > a.minimums[i].got {
+				a.minimums[i].got = m.got
+			}
+		}
+	}
+	type key struct{ rule, construct string }
+	idx := map[key][]int{}
+	for i, o := range a.Obs {
+		k := key{o.Rule, o.Construct}
+		idx[k] = append(idx[k], i)
+	}
+	bBest := map[key]string{}
+	rank := map[string]int{Violation: 0, Undecided: 1, Discharged: 2}
+	for _, o := range b.Obs {
+		k := key{o.Rule, o.Construct}
+		if cur, ok := bBest[k]; !ok || rank[o.Verdict] < rank[cur] {
+			bBest[k] = o.Verdict // the worst verdict of the inlined view for this key
+		}
+	}
+	// keys of a: upgraded when the inlined view discharges every instance of the key
+	for k, is := range idx {
+		bv, ok := bBest[k]
+		if !ok {
+			continue
+		}
+		for _, i := range is {
+			o := &a.Obs[i]
+			switch {
+			case o.Verdict == Discharged:
+			case bv == Discharged:
+				o.Detail = "discharged on the inlined view (as written: " + o.Verdict + " - " + o.Detail + ")"
+				o.Verdict = Discharged
+			case o.Verdict == Undecided && bv == Violation && os.Getenv("GMSL_INLINE_ADD") != "":
+				// the inlined view found positive evidence
+				for _, bo := range b.Obs {
+					if bo.Rule == k.rule && bo.Construct == k.construct && bo.Verdict == Violation {
+						o.Verdict, o.Detail, o.Pos = Violation, bo.Detail+" [inlined view]", bo.Pos
+						break
+					}
+				}
+			}
+		}
+	}
+	// a violation of a that the inlined view proves under the same key in every instance was
+	// handled above; obligations that exist only in the inlined view are added as they are,
+	// unless the source view discharges the rule for the same function under another key
+	for _, o := range b.Obs {
+		k := key{o.Rule, o.Construct}
+		if _, ok := idx[k]; ok {
+			continue
+		}
+		o.Detail = o.Detail + " [inlined view]"
+		if o.Verdict == Violation && os.Getenv("GMSL_INLINE_ADD") == "" {
+			// the inlined view only ever rescues: a report needs the construct as written
+			o.Verdict = Undecided
+			o.Detail = "reported on the inlined view only: " + o.Detail
+		}
+		a.Obs = append(a.Obs, o)
+	}
+	for k, v := range b.Analysed {
+		a.Analysed["inlined view: "+k] += v
+	}
+	if b.P.Inlined != nil {
+		a.Analysed["inlined view: call sites expanded"] = b.P.Inlined.Sites
+	}
+}
